@@ -30,6 +30,7 @@ import (
 	"os"
 	"reflect"
 	"strings"
+	"sync"
 	"unsafe"
 )
 
@@ -66,6 +67,7 @@ var Hook func(op string, mutating bool)
 // LogCalls switches the call log on; Calls holds it.
 var LogCalls bool
 var Calls []Call
+var logMu sync.Mutex // only taken when LogCalls is on (never in race-detector stages: it would order the callers)
 
 type Call struct {
 	Op       string
@@ -82,6 +84,8 @@ func enter(op string, mutating bool, file, path string, sel *Dataspace) {
 		Hook(op, mutating)
 	}
 	if LogCalls {
+		logMu.Lock()
+		defer logMu.Unlock()
 		c := Call{Op: op, File: file, Path: path, Mutating: mutating}
 		if sel != nil && sel.selected {
 			c.Offset, c.Block, c.Count = sel.offset, sel.block, sel.count
@@ -134,6 +138,20 @@ func Reset() {
 	}
 	files = map[string]*fileData{}
 	Calls = nil
+}
+
+// live returns the file's content, or nil when it was never created or its marker file has been
+// removed behind the stand-in's back (os.Remove by the code under test).
+func live(name string) *fileData {
+	fd := files[name]
+	if fd == nil {
+		return nil
+	}
+	if _, err := os.Stat(name); err != nil {
+		delete(files, name)
+		return nil
+	}
+	return fd
 }
 
 func newGroup() *node { return &node{group: true, children: map[string]*node{}} }
@@ -189,11 +207,8 @@ func CreateFile(name string, flags int) (*File, error) {
 
 func OpenFile(name string, flags int) (*File, error) {
 	enter("H5Fopen", false, name, "", nil)
-	fd := files[name]
-	if _, err := os.Stat(name); err != nil || fd == nil {
-		if fd != nil { // removed behind our back (os.Remove): forget it
-			delete(files, name)
-		}
+	fd := live(name)
+	if fd == nil {
 		return nil, fmt.Errorf("hdf5: unable to open file %q", name)
 	}
 	return &File{CommonFG{file: fd, n: fd.root, path: "/", rw: flags&F_ACC_RDWR != 0}}, nil
@@ -321,6 +336,7 @@ type Dataspace struct {
 	count    []uint
 	block    []uint
 	selErr   error
+	none     bool
 }
 
 func CreateSimpleDataspace(dims, maxDims []uint) (*Dataspace, error) {
@@ -360,7 +376,8 @@ func (s *Dataspace) SelectHyperslab(offset, stride, count, block []uint) error {
 			return errors.New("hdf5: H5Sselect_hyperslab: invalid stride 0")
 		}
 		if s.count[i] == 0 || s.block[i] == 0 {
-			return errors.New("hdf5: H5Sselect_hyperslab: count or block of 0")
+			// libhdf5 (H5Shyper.c): a zero-sized hyperslab selects nothing and succeeds
+			s.none = true
 		}
 		if s.count[i] > 1 && s.block[i] > s.stride[i] {
 			return errors.New("hdf5: H5Sselect_hyperslab: hyperslab blocks overlap")
@@ -382,6 +399,9 @@ func (s *Dataspace) selection() ([]int, error) {
 			r[i] = i
 		}
 		return r, nil
+	}
+	if s.none {
+		return nil, nil
 	}
 	per := make([][]int, rank)
 	for d := 0; d < rank; d++ {
@@ -573,7 +593,7 @@ func (s *Dataset) Write(data interface{}) error { return s.WriteSubset(data, nil
 
 // FakeStringDataset creates a 1-D fixed-length string dataset (what LoadText reads).
 func FakeStringDataset(filename, path string, strs []string) error {
-	fd := files[filename]
+	fd := live(filename)
 	if fd == nil {
 		return errors.New("no such file")
 	}
@@ -608,7 +628,7 @@ func FakeStringDataset(filename, path string, strs []string) error {
 
 // FakeEnsureGroup creates (if needed) the group path.
 func FakeEnsureGroup(filename, path string) error {
-	fd := files[filename]
+	fd := live(filename)
 	if fd == nil {
 		return errors.New("no such file")
 	}
@@ -627,7 +647,7 @@ func FakeEnsureGroup(filename, path string) error {
 
 // FakeRaw returns the dataset's element size, dims and a copy of its raw bytes.
 func FakeRaw(filename, path string) (size int, dims []uint, raw []byte, ok bool) {
-	fd := files[filename]
+	fd := live(filename)
 	if fd == nil {
 		return 0, nil, nil, false
 	}
@@ -653,7 +673,7 @@ func FakeFloat64s(filename, path string) ([]float64, []uint, bool) {
 
 // FakeFill overwrites every byte of a dataset (to make unwritten regions visible).
 func FakeFill(filename, path string, b byte) bool {
-	fd := files[filename]
+	fd := live(filename)
 	if fd == nil {
 		return false
 	}
@@ -669,7 +689,7 @@ func FakeFill(filename, path string, b byte) bool {
 
 // FakeList lists every object path of a file ("/a/b" groups end with "/").
 func FakeList(filename string) []string {
-	fd := files[filename]
+	fd := live(filename)
 	if fd == nil {
 		return nil
 	}
@@ -691,3 +711,63 @@ func FakeList(filename string) []string {
 }
 
 var _ = binary.LittleEndian
+
+// FakePut creates (or replaces) a dataset with the given element kind and raw values,
+// creating intermediate groups. kind: "f64", "i32", "u32".
+func FakePut(filename, path, kind string, dims []int, vals []float64) error {
+	fd := live(filename)
+	if fd == nil {
+		return errors.New("no such file")
+	}
+	parts := split(path)
+	if err := FakeEnsureGroup(filename, strings.Join(parts[:len(parts)-1], "/")); err != nil {
+		return err
+	}
+	cur := fd.root.lookup(strings.Join(parts[:len(parts)-1], "/"))
+	var t dtype
+	switch kind {
+	case "f64":
+		t = dtype{classFloat, 8, true}
+	case "i32":
+		t = dtype{classInteger, 4, true}
+	case "u32":
+		t = dtype{classInteger, 4, false}
+	default:
+		return errors.New("kind")
+	}
+	n := 1
+	ud := make([]uint, len(dims))
+	for i, d := range dims {
+		n *= d
+		ud[i] = uint(d)
+	}
+	if n != len(vals) {
+		return fmt.Errorf("FakePut %s: %d values for dims %v", path, len(vals), dims)
+	}
+	ds := &node{typ: t, dims: ud, data: make([]byte, n*int(t.size))}
+	for i, v := range vals {
+		switch kind {
+		case "f64":
+			binary.LittleEndian.PutUint64(ds.data[8*i:], *(*uint64)(unsafe.Pointer(&v)))
+		case "i32":
+			binary.LittleEndian.PutUint32(ds.data[4*i:], uint32(int32(v)))
+		case "u32":
+			binary.LittleEndian.PutUint32(ds.data[4*i:], uint32(v))
+		}
+	}
+	name := parts[len(parts)-1]
+	if _, ok := cur.children[name]; !ok {
+		cur.order = append(cur.order, name)
+	}
+	cur.children[name] = ds
+	return nil
+}
+
+// FakeCreateFile creates an empty file without going through the hook / call log.
+func FakeCreateFile(name string) error {
+	if err := os.WriteFile(name, []byte("fake-hdf5 marker\n"), 0o644); err != nil {
+		return err
+	}
+	files[name] = &fileData{name: name, root: newGroup()}
+	return nil
+}
